@@ -212,6 +212,13 @@ def random_cases(n, seed, dirs=("local", "push", "pull")):
         # a file must not also be a directory prefix of another name
         names = [x for x in names if not any(y != x and y.startswith(x + "/") for y in names)]
         secs = rng.sample(SEC_POOL, 3)
+        # file / directory clash: one tree has a file where the other needs a directory (each tree stays consistent)
+        clash = None
+        if rng.random() < 0.12:
+            base = rng.choice(names)
+            sub = base + "/" + rng.choice(["inner", "b", "q?mark", "with space"])
+            names = sorted(set(names) | {sub})
+            clash = (names.index(base), names.index(sub))
 
         def meta():
             if rng.random() < 0.3:
@@ -229,6 +236,15 @@ def random_cases(n, seed, dirs=("local", "push", "pull")):
                 dst.append([3 - s[0], s[1], rng.randint(0, 1)])       # same size + whole-second mtime, different bytes
             else:
                 dst.append(meta())
+        if clash:
+            ib, isub = clash
+            if rng.random() < 0.7:
+                hi, lo = (src, dst) if rng.random() < 0.5 else (dst, src)
+                hi[ib], hi[isub] = (hi[ib] or [1, 1, 0]), []
+                lo[ib], lo[isub] = [], (lo[isub] or [2, 2, 0])
+            for t in (src, dst):
+                if t[ib] and t[isub]:
+                    t[rng.choice([ib, isub])] = []
         pats = []
         for _ in range(rng.choice([0, 0, 1, 2])):
             r = rng.random()
@@ -241,7 +257,33 @@ def random_cases(n, seed, dirs=("local", "push", "pull")):
                 pats.append(rng.choice(["*", "?", "*.b", "d/*", "*e*", "??", "*'*", "new*", "-*", "*\n*", "*$*", "deep/*/nest/*"]))
         # clap would read a pattern starting with '-' as a flag only in the separated form; we always pass `--exclude PAT`
         pats = [p for p in pats if not p.startswith("-")]
-        case = {"id": f"r{seed}-{k}", "names": names, "secs": secs, "src": src, "dst": dst, "pats": pats, "del": rng.random() < 0.5,
+        # a directory that only the destination has, holding a stale file next to an excluded one (and one level deeper)
+        if rng.random() < 0.15:
+            d = rng.choice([x for x in DIR_POOL if x and "/" not in x]) + rng.choice(["", "-old"])
+            extra = [d + "/" + f for f in rng.sample(["a.b", "plain", "keep me", "sub/x.b", "sub/y"], rng.randint(2, 4))]
+            extra = [x for x in extra if x not in names and not any(n == d or n.startswith(x + "/") or x.startswith(n + "/") for n in names)]
+            if extra and not any(n.startswith(d + "/") for n in names):
+                for x in extra:
+                    names.append(x)
+                    src.append([])
+                    dst.append([rng.choice([1, 2, 3, 4]), rng.randint(1, 3), rng.randint(0, 1)])
+                victim = rng.choice(extra)
+                pats = pats[:1] + [rng.choice([victim, victim.split("/")[-1], "*.b", "keep*", "sub", d + "/*"])]
+                pats = [p for p in pats if not p.startswith("-")]
+                if not any(m for m in src):
+                    src[0] = [1, 1, 0]
+                order = sorted(range(len(names)), key=lambda i: names[i])
+                if clash:
+                    clash = (order.index(clash[0]), order.index(clash[1]))
+                names, src, dst = [names[i] for i in order], [src[i] for i in order], [dst[i] for i in order]
+                stale_dir = True
+            else:
+                stale_dir = False
+        else:
+            stale_dir = False
+        case = {"id": f"r{seed}-{k}", "names": names, "secs": secs, "src": src, "dst": dst, "pats": pats, "del": rng.random() < (0.85 if stale_dir else 0.5),
                 "dry": rng.random() < 0.2, "dir": rng.choice(dirs), "jobs": rng.choice([1, 2, 8]), "verbose": rng.random() < 0.3}
+        if clash:
+            case["induced"] = "clash"
         out.append(case)
     return out
